@@ -348,6 +348,7 @@ class World:
         self.steps = []
         for s in doc.get("steps", []):
             self.steps.append(self._build_step(s))
+        self.manual_set(0, 0)
         self.shadow = None
         if doc.get("shadow_model") and doc["items"] and doc["items"][0]["type"] == "SolidBody" and doc.get("field", {}).get("kind", "Field") in ("Field", "PlaneStrain"):
             # a second, unrelated model in the same process that shares the MATERIAL OBJECT of the first
@@ -357,6 +358,28 @@ class World:
             self.shadow_field = build_field(self.region, doc.get("field", {}), self.seed)
             self.shadow = fem.SolidBody(getattr(um0, "inner", um0), self.shadow_field)
             self.shadow_pokes = 0
+
+    def manual_set(self, j, i):
+        """Caller-side boundary update for substep i of step j (steps whose boundaries are not in the ramp)."""
+        mr = self.__dict__.get("manual_ramps")
+        if not mr:
+            return
+        for obj_, vals_ in mr.get(j, []):
+            obj_.update(vals_[i])
+
+    def manual_advance(self, j, i):
+        """After substep (j, i) converged: the values of the next substep (next step; or, after the
+        last one, the first again - the job may be evaluated a second time)."""
+        mr = self.__dict__.get("manual_ramps")
+        if not mr:
+            return
+        n = len(self.doc["steps"][j]["ramp"][0]["values"])
+        if i + 1 < n:
+            self.manual_set(j, i + 1)
+        elif j + 1 < len(self.doc["steps"]):
+            self.manual_set(j + 1, 0)
+        else:
+            self.manual_set(0, 0)
 
     def poke_shadow(self):
         """The other model takes a (converged) step of its own."""
@@ -642,6 +665,20 @@ class World:
             b["move"] = fem.Boundary(f0, skip=tuple(skip), value=0.0, **{("fx", "fy", "fz")[axis]: right})
             ramp_bc["move"] = b["move"]
             return b, ramp_bc
+        if case == "uniaxial" and not bc.get("clamped", False) and pick(self.seed, "move-retargeted", 3) == 0:
+            # the load case is created for another cross-section (here: a plane that holds no point) and
+            # its moved boundary is re-selected afterwards with the public Boundary.apply_mask
+            axis = bc.get("axis", 0)
+            pts = self.mesh.points
+            body = pts[:-1] if (self.doc["mesh"].get("extra_point") or self.doc["mesh"].get("orphan_point")) else pts
+            lo_, hi_ = float(body[:, axis].min()), float(body[:, axis].max())
+            b, _ = api("dof.uniaxial", fem.dof.uniaxial, self.seed, self.field, clamped=False, axis=axis, sym=symflags(bc.get("sym", True)), move=0.0, right=lo_ + 0.3711 * (hi_ - lo_))
+            sel = np.isclose(pts[:, axis], hi_)
+            if len(body) < len(pts):
+                sel[-1] = False
+            b["move"].apply_mask(sel)
+            ramp_bc["move"] = b["move"]
+            return b, ramp_bc
         if case == "uniaxial":
             b, _ = api("dof.uniaxial", fem.dof.uniaxial, self.seed, self.field, clamped=bc.get("clamped", False), axis=bc.get("axis", 0), sym=symflags(bc.get("sym", True)), move=0.0)
             ramp_bc["move"] = b["move"]
@@ -721,6 +758,14 @@ class World:
             elif all(isinstance(v, np.ndarray) for v in vals) and len({v.shape for v in vals}) == 1:
                 vals = np.asarray(vals, dtype=float)  # one table, a row per substep
             ramp[obj] = vals
+        if self.doc.get("manual_bc_ramp") and any(not r_["target"].startswith("bc:") for r_ in s.get("ramp", [])) and any(r_["target"].startswith("bc:") for r_ in s.get("ramp", [])):
+            # the step ramps its load items only; the caller moves the boundaries itself between the
+            # substeps (Boundary.update from the job callback / a hand-written loop) - same values, same order
+            j_ = len(self.__dict__.setdefault("manual_ramps", {}))
+            self.manual_ramps[j_] = [(obj_, v_) for obj_, v_ in ramp.items() if isinstance(obj_, fem.Boundary)]
+            ramp = {obj_: v_ for obj_, v_ in ramp.items() if not isinstance(obj_, fem.Boundary)}
+        elif self.doc.get("manual_bc_ramp"):
+            self.__dict__.setdefault("manual_ramps", {})[len(self.__dict__.get("manual_ramps", {}))] = []
         if len(ramp) > 1 and pick(self.seed, "ramp-order", 3) == 0:
             ramp = dict(reversed(list(ramp.items())))
         bnames = s.get("boundaries")
